@@ -19,7 +19,7 @@ import (
 const modulePath = "github.com/reeflective/readline"
 
 type Engine struct {
-	finalKeys map[string]bool
+	finalKeys     map[string]bool
 	repo          string
 	verif         string
 	prog          *ssa.Program
